@@ -183,6 +183,18 @@ class TagWorker(Worker):
                         time.sleep(arg)
                     elif a == 'die':
                         raise SystemExit(f'{tag} gives up')
+                    elif a == 'return-unpicklable':
+                        from .targets import Unpicklable
+
+                        return (tag, tid(x), Unpicklable(arg))  # a result that cannot cross the next process boundary
+                    elif a == 'return-unloadable':
+                        from .targets import Unloadable
+
+                        return (tag, tid(x), Unloadable(arg))  # a result that pickles here and cannot be rebuilt by the receiver
+                    elif a == 'raise-unpicklable':
+                        from .targets import Unpicklable
+
+                        raise Boom(tag, tid(x), Unpicklable(arg))  # SITE-MARK-7f3a call (an exception whose payload cannot be pickled)
                     elif a == 'return-exc':
                         return Boom(tag, tid(x))  # returned, not raised: the library treats an exception value as this request's failure
                     elif a == 'fail':
